@@ -357,6 +357,8 @@ def run(ctx):
     if ctx.prop == "C03" and not getattr(ctx, "_sharing", False):
         from .common import share
         share(ctx, "C19", ("R19.1",), "R03.7", "env::get obligations shared with C19", 4)
+        # the first-ranked source is available for every value: a well-formed --name=value token is never rejected for its value
+        share(ctx, "C02", ("R02.4",), "R03.7", "token-syntax obligations shared with C02", 1)
     # ---- R03.8: the variable that is looked up is the variable that was bound: env_ holds the setter's argument verbatim
     ctx.rule("R03.8", "every write of base::env_ stores a copy-only carrier of the writing function's own parameter (or the same member of another object): variable names are case-sensitive, a normalised name is a different variable")
     ENVF = NS + "base::env_"
